@@ -2,7 +2,7 @@
 mod verif_c19 {
     use super::*;
     use crate::{MarkedYaml, MarkedYamlOwned, ScalarOwned, YamlData, YamlOwned};
-    use saphyr_parser::{Marker, Span};
+    use saphyr_parser::{Marker, ScalarStyle, Span};
     use std::hash::{Hash, Hasher};
 
     fn same_leaf(a: &Yaml<'_>, b: &Yaml<'_>) -> bool {
@@ -63,9 +63,48 @@ mod verif_c19 {
     keeps_resolved!(c19_keeps_resolved_alias, c19_recursive_keeps_alias, Yaml::Alias(kani::any()));
     keeps_resolved!(c19_keeps_resolved_bad, c19_recursive_keeps_bad, Yaml::BadValue);
 
-    // (deferred == eager resolution of a Representation node was tried with 1-2 symbolic text bytes and did not
-    // finish within 300 s per harness - the resolver itself is the subject of the C08 harnesses - so it is not
-    // part of this file any more)
+    // deferred == eager resolution of an untagged Representation node.  With 1-2 *symbolic* text bytes this did not
+    // finish within 300 s per harness (the resolver itself is the subject of the C08 harnesses), so the text is a
+    // concrete type-like word and only the style varies: a plain "1" / "~" / "true" resolves to its typed value, the
+    // same text in a quoted or block style stays a string - exactly what eager loading
+    // (Scalar::parse_from_cow_and_metadata) gives.  (Without the stub of f64::from_str below, the plain style did not
+    // finish in 400 s even for these concrete texts.)
+    // f64::from_str is never reached for the texts used below ("1" is an integer, "~" null, "true" a boolean before
+    // the float parser is tried); CBMC cannot know that without unrolling the parser, so it is stubbed out
+    fn f64_never(_s: &str) -> Result<f64, core::num::ParseFloatError> {
+        kani::assume(false);
+        "x".parse::<f64>()
+    }
+    macro_rules! deferred_eq_eager {
+        ($name:ident, $text:expr, $style:expr) => {
+            #[kani::proof]
+            #[kani::unwind(12)]
+            #[kani::stub(<f64 as core::str::FromStr>::from_str, f64_never)]
+            fn $name() {
+                let mut n: Yaml<'static> = Yaml::Representation(Cow::Borrowed($text), $style, None);
+                let ok = n.parse_representation();
+                let eager = Scalar::parse_from_cow_and_metadata(Cow::Borrowed($text), $style, None);
+                match eager {
+                    Some(sc) => {
+                        let e = Yaml::Value(sc);
+                        assert!(ok, "deferred resolution fails where eager resolution succeeds");
+                        assert!(same_leaf(&n, &e), "deferred resolution differs from eager resolution");
+                        core::mem::forget(e);
+                    }
+                    None => assert!(!ok, "deferred resolution succeeds where eager resolution fails"),
+                }
+                core::mem::forget(n);
+            }
+        };
+    }
+    deferred_eq_eager!(c19_deferred_int_plain, "1", ScalarStyle::Plain);
+    deferred_eq_eager!(c19_deferred_null_plain, "~", ScalarStyle::Plain);
+    deferred_eq_eager!(c19_deferred_bool_plain, "true", ScalarStyle::Plain);
+    deferred_eq_eager!(c19_deferred_int_dq, "1", ScalarStyle::DoubleQuoted);
+    deferred_eq_eager!(c19_deferred_int_sq, "1", ScalarStyle::SingleQuoted);
+    deferred_eq_eager!(c19_deferred_int_literal, "1", ScalarStyle::Literal);
+    deferred_eq_eager!(c19_deferred_null_dq, "~", ScalarStyle::DoubleQuoted);
+    deferred_eq_eager!(c19_deferred_bool_folded, "true", ScalarStyle::Folded);
 
     // converting a borrowed scalar to an owned one and back preserves it
     #[kani::proof]
